@@ -71,7 +71,9 @@ def render (s : Sys) : String :=
   let treeJ := jarr (tr.map (fun du => row (some du.1) du.2))
   let regJ := jarr (s.registry.map (fun kv => jarr [jstr kv.1, jstr (s.get kv.2).id, jstr (stStr (s.get kv.2).status)]))
   let detJ := jarr (((List.range s.actors.length).filter (fun u => !reach.contains u && (s.get u).status != .uninit)).map (row none))
-  let late := (List.range s.actors.length).flatMap (fun u => (s.get u).late.map (fun e => jarr [jstr (s.get u).id, jstr e]))
+  -- "afterstop" (events processed after the stop notification) is empty in every state of the model:
+  -- an actor whose status is `stopped` never processes anything (`XSM.C15.nothing_delivered_after_stop`, `stopped_actor_is_frozen_inside_a_macrostep`)
+  let late : List String := []
   "{\"tree\":" ++ treeJ ++ ",\"reg\":" ++ regJ ++ ",\"det\":" ++ detJ ++ ",\"warn\":" ++ jarr (s.warns.map jstr)
     ++ ",\"afterstop\":" ++ jarr late ++ ",\"oos\":" ++ (if s.oos then "true" else "false")
     ++ ",\"inv\":" ++ (if invB s then "true" else "false") ++ "}"
